@@ -4,8 +4,10 @@
    handler, the select machine, notify_*, spawn_process, frame auto-pop and completion of
    Executor::step, replace_locals / release_orphan_locals; debug-build semantics: every
    debug_assert and every Vec index is a Panic outcome), theories/heap/HeapVmFix.v (spawn_process
-   after hooks/fix_F46.patch). `true` as first argument of a handler = the code after
-   hooks/fix_F9.patch, `false` = the code as found.
+   after fix_F46). Both repairs are committed in /repo (fix_F9 = b6882e1, fix_F46 = 9ff9f6e): the
+   model of the code AS COMMITTED is `true` as first argument of a handler (the displaced
+   awaiting/receiving value is released) and `spawn_process_f46` (one bundled injection); `false`
+   and `spawn_process` model the code before the repairs and carry the `_refuted` witnesses.
 
    Vocabulary (theories/heap/HeapInv.v, HeapExec.v, HeapProofs.v):
      RC x      := forall i, rc_at (x_heap x) i = cnt i (all_refs x)
@@ -25,13 +27,14 @@
      NoOrphan h := every slot with count 0 is freed or queued in pending_free.
 
    PARTIAL (what no theorem here covers):
-   * `refcount_exact` for the code AS FOUND is false (finding F9): refuted below at
-     initialize_select, notify_result and call_receive_function; the un-negated theorems are for
-     the repaired code (fx = true). Sites not touched by F9 are proved for both.
+   * `refcount_exact` for the code BEFORE fix_F9 is false: refuted below at initialize_select,
+     notify_result and call_receive_function; the un-negated theorems are for the code as
+     committed (fx = true). Sites not touched by F9 are proved for both.
    * A failing completion propagates the error over an awaiter's Ok result without releasing it
      (finding F45h, refuted below); C06_refcount_exact_step carries the corresponding premise.
-   * reclaim_complete needs NoOrphan, which spawn_process breaks (finding F46, refuted below);
-     NoOrphan-preservation is proved for the heap primitives only, not per handler.
+   * reclaim_complete needs NoOrphan, which spawn_process broke before fix_F46 (refuted below);
+     NoOrphan-preservation is proved for the heap primitives only, not per handler (for the
+     repaired spawn_process it is validated on every run: the oracle counts orphan slots).
    * Theorems are conditional on the operation returning `Val`/not panicking: absence of the
      debug-assert panics (release underflow, retain of a freed slot) is validated by the
      correspondence and the oracle on the real code, not proved.
@@ -97,9 +100,17 @@ Print Assumptions C06_refcount_exact_notify_spawn.
 
 Theorem C06_refcount_exact_spawn_process : forall x pid fn caps arg data pers x',
   XInv x -> get_proc x pid = None ->
+  spawn_process_f46 x pid fn caps arg data pers = Val x' -> XInv x' /\ xstable x x'.
+Proof. exact spawn_process_f46_XInv. Qed.
+Print Assumptions C06_refcount_exact_spawn_process.
+
+(* the per-capture injection of the code before fix_F46 kept the exact count too (it only
+   stranded slots, see C06_F46_spawn_orphans_refuted) *)
+Theorem C06_refcount_exact_spawn_process_before_F46 : forall x pid fn caps arg data pers x',
+  XInv x -> get_proc x pid = None ->
   spawn_process x pid fn caps arg data pers = Val x' -> XInv x' /\ xstable x x'.
 Proof. exact spawn_process_XInv. Qed.
-Print Assumptions C06_refcount_exact_spawn_process.
+Print Assumptions C06_refcount_exact_spawn_process_before_F46.
 
 Theorem C06_refcount_exact_replace_locals : forall x pid keep x',
   XInv x -> compact_locals x pid keep = Val x' -> XInv x' /\ xstable x x'.
@@ -154,7 +165,8 @@ Theorem C06_transfer_copies : forall h h2 v v' data h2' v'',
 Proof. exact transfer_copies_l. Qed.
 Print Assumptions C06_transfer_copies.
 
-(* ---- the code as found: refuted (F9, F46, F45h), witnesses by computation ---- *)
+(* ---- refuted, witnesses by computation: the code before fix_F9 / fix_F46 (kept as the record of
+   what the repairs change) and the still-open F45h ---- *)
 Theorem C06_F9_initialize_select_refuted :
   exists o h p pid now,
     Inv o h p /\ p_sel p = None /\
@@ -185,6 +197,13 @@ Theorem C06_F46_spawn_orphans_refuted :
     spawn_process x 1 (Some 0) [VBin 0] (VInt 0%Z) [[1%Z]] false = Val x' /\ ~ NoOrphan (x_heap x').
 Proof. exact spawn_orphans_refuted. Qed.
 Print Assumptions C06_F46_spawn_orphans_refuted.
+
+(* the same spawn on the code as committed strands nothing *)
+Theorem C06_F46_repaired_no_orphan :
+  exists x', spawn_process_f46 (mkExec empty_heap []) 1 (Some 0) [VBin 0] (VInt 0%Z) [[1%Z]] false = Val x' /\
+             rcs (x_heap x') = [1] /\ freed (x_heap x') = [false] /\ length (cells (x_heap x')) = 1.
+Proof. exact spawn_f46_no_orphan. Qed.
+Print Assumptions C06_F46_repaired_no_orphan.
 
 Theorem C06_F45h_fail_result_refuted : exists x, XInv x /\ ~ RC (fail_result x 0).
 Proof. exact fail_result_refuted. Qed.
